@@ -271,6 +271,7 @@ void run_exact_case(Ctx &ctx, int64_t kase, Rng &r, const DomInfo &d);
 void run_lift_case(Ctx &ctx, int64_t kase, Rng &r, const DomInfo &d);
 void run_twin_case(Ctx &ctx, int64_t kase, Rng &r, const DomInfo &d);
 void run_flow_case(Ctx &ctx, int64_t kase, Rng &r, const DomInfo &d);
+void run_typedtwin_case(Ctx &ctx, int64_t kase, Rng &r, const DomInfo &d);
 void run_xform_case(Ctx &ctx, int64_t kase, Rng &r, const DomInfo &d);
 
 } // namespace vf
